@@ -354,9 +354,11 @@ int convert_msa_to_internal(struct msa* msa, int type)
         for(i = 0; i <  msa->numseq;i++){
                 seq = msa->sequences[i];
                 for(j =0 ; j < seq->len;j++){
-                        if(t[(int) seq->seq[j]] == -1){
+                        if(seq->seq[j] < 0 || t[(int) seq->seq[j]] == -1){
                                 WARNING_MSG("there should be no character not matching the alphabet");
                                 WARNING_MSG("offending character: >>>%c<<<", seq->seq[j]);
+                                /* treat it as fully ambiguous (N / X) instead of leaving s[j] unset */
+                                seq->s[j] = (type == ALPHA_defDNA) ? t[(int)'N'] : t[(int)'X'];
                                 /* exit(0); */
                         }else{
                                 seq->s[j] = t[(int) seq->seq[j]];
